@@ -48,7 +48,8 @@ def sdl_of(types):
 SCHEMA = sdl_of(TYPES)
 OBJ_ID = {"Query": 0, "Mutation": 0, "A": 1, "B": 2, "C": 3}
 
-# covariant field types: an object type refines the type of an interface field (known finding)
+# covariant field types: an object type refines the type of an interface field (formerly a known finding:
+# values were completed against the interface's field type; repaired in execute_field)
 COV_TYPES = {
     "Query": ("object", [], {"i": ("I", ""), "is": ("[I!]", ""), "t": ("T", "")}),
     "I": ("interface", [], {"f": ("Int", ""), "g": ("I", "")}),
@@ -227,6 +228,9 @@ DOCS = [
     ("{ a { any any2: any(s: \"t\", i: {y: [1]}) } }", ["{}"]),
     ("query($v: Int) { any(j: {a: $v, b: [1, 2.5, \"s\", true, null, E]}, c: GREEN) }", ['{}', '{"v":3}']),
     ("{ any(j: [1, {k: 2}], c: null, ll: 1) x: any(ll: [[1], [2, 3]]) y: any(j: 99999999999, l: []) }", ["{}"]),
+    # variables nested in list / object literals given for a custom scalar (formerly a known finding; repaired)
+    ("query($v: Int, $s: String = \"d\", $a: Any) { any(j: [$a, [$a, {k: [$v]}], {a: {b: $s}}]) x: any(j: {a: $v}, l: [$v]) }",
+     ['{}', '{"v":3,"a":{"z":[1]}}', '{"v":null,"s":"t","a":null}']),
     ("query($v: Int) { str req(r: $v) }", ['{}', '{"v":null}', '{"v":1}']),
     ("query($v: Int, $i: In) { a { n } reqa(r: $v) { n } x: req(i: $i) }", ['{}', '{"v":null,"i":{"x":null}}', '{"v":1,"i":null}']),
     ("{ __typename a { __typename } }", ["{}"]),
@@ -246,6 +250,8 @@ COV_DOCS = [
     ("{ i { g { f } } t { f } }", ["{}"]),
     ("{ is { f } }", ["{}"]),
     ("{ i { ... on T { f } } }", ["{}"]),
+    ("{ i { g { g { f } } f } is { g { f } } }", ["{}"]),
+    ("{ i { ...F g { ...F } } } fragment F on I { f g { f } }", ["{}"]),
 ]
 
 
@@ -387,18 +393,14 @@ def oracle_ref(ctx, model, triples, rows, family="exec_sync", ref=None):
     mc_of = {ic: mc for ic, mc, _ in triples}
     if ref is None:
         ref = run_family(model, "exec_ref", [mc_of[r[0]] for r in rows])
-    fam = ctx.cov["families"].setdefault("exec_ref", {"cases": 0, "agree": 0, "known": 0})
-    for (ic, iobs, mo, rd), r in zip(rows, ref):
+    fam = ctx.cov["families"].setdefault("exec_ref", {"cases": 0, "agree": 0})
+    for (ic, iobs, mo, rd), robs in zip(rows, ref):
         fam["cases"] += 1
-        robs, cls = r.rsplit(" cls=", 1)
         if robs.startswith("model-"):
             raise MachineryError(f"reference executor failed on {rd}: {robs}")
         bug = "E(b," in iobs       # a SuspectedValidationBug surfaced although the document is valid
         if iobs.split(" log=")[0] == robs and not bug:
             fam["agree"] += 1
-            continue
-        if cls != "-" and ctx.known_hit(cls):
-            fam["known"] += 1
             continue
         ctx.oracle_failures += 1
         if len(ctx.violations) < 8:
@@ -418,9 +420,8 @@ def run(ctx):
     limit = stats["limit"]
     triples, skipped, invalid_pairs = exec_triples(impl, cases)
     ref = run_family(model, "exec_ref", [t[1] for t in triples])
-    cls_of_case = {t[2]: (r.rsplit(" cls=", 1)[1] if " cls=" in r else "-") for t, r in zip(triples, ref)}
     rows = correspond_pairs(ctx, impl, model, "exec_sync", triples, nontrivial=lambda rd, o: True,
-                            classify=lambda rd, i, m: None if cls_of_case.get(rd, "-") == "-" else cls_of_case[rd])
+                            classify=lambda rd, i, m: None)     # no known class
     oracle_ref(ctx, model, triples, rows, ref=ref)
     # the decidable hypotheses of C26_eq_reference_decidable, evaluated by the extracted predicates on every distinct
     # (schema, document) of this run: how much of the tested population the theorem speaks about
@@ -428,15 +429,12 @@ def run(ctx):
     for t in triples:
         sd_of.setdefault(" ".join(t[1].split(" ")[:2]), t[1])
     hyps = run_family(model, "exec_hyps", list(sd_of.values()))
-    hfam = ctx.cov["families"].setdefault("exec_hyps", {"schema_document_pairs": 0, "outside_known_covariant": 0,
+    hfam = ctx.cov["families"].setdefault("exec_hyps", {"schema_document_pairs": 0,
                                                         "theorem_hypotheses_hold": 0, "fail_samples": []})
     for mc, h in zip(sd_of.values(), hyps):
         if h.startswith("model-"):
             raise MachineryError(f"exec_hyps failed: {h}")
         hfam["schema_document_pairs"] += 1
-        if "covariant=1" in h:
-            continue
-        hfam["outside_known_covariant"] += 1
         if h.startswith("wf=1 alias=1 acyclic=1"):
             hfam["theorem_hypotheses_hold"] += 1
         elif len(hfam["fail_samples"]) < 5:
@@ -464,7 +462,7 @@ def run(ctx):
         "the schema reaches the model as dumped by the real builder without built-in definitions; the five built-in scalars are added by the glue",
         "error messages are not compared: an error is (class, path) with class = carries the resolver's own message / suspected validation bug / other",
         "the harness's resolvers identify an object by (id, claimed type name) and answer from the table; a missing entry is a resolver error",
-        "equality of the model with the reference executor is proved (C26_eq_reference) for schemas with sch_exec_wf, documents outside known_covariant, without fragment cycles (rd_acyclic) and with one field name per response key in every grouped field set (rd_mergeable; decidable sufficient condition rd_alias_consistent); the decidable hypotheses are evaluated by the extracted predicates on every generated (schema, document) (families.exec_hyps), and implementation = reference is still checked on every case",
+        "equality of the model with the reference executor is proved (C26_eq_reference) for schemas with sch_exec_wf (which includes the covariance of implemented fields, sch_impl_covariant), documents without fragment cycles (rd_acyclic) and with one field name per response key in every grouped field set (rd_mergeable; decidable sufficient condition rd_alias_consistent); the decidable hypotheses are evaluated by the extracted predicates on every generated (schema, document) (families.exec_hyps), and implementation = reference is still checked on every case",
         "the typed document is td_build's (valid documents); that rd_mergeable follows from validation's FieldsInSetCanMerge is not proved",
         "fuel: C26_fuel_enough proves that the model never reports out-of-fuel under rd_acyclic (the reference likewise, inside C26_eq_reference)",
     ]
